@@ -176,11 +176,13 @@ func Judge(sp *Spec, r *vsched.Result) []string {
 					n = ci.enters
 				}
 				add("C02", "callback %s, accepted by the restarted service, ran %d times by quiescence (want exactly once)", id, n)
+				add("C03", "after the restart the call submitting %s was neither refused nor took effect (ran %d times by quiescence)", id, n)
 			}
 		}
 		for _, id := range sp.LateReply {
 			if injected[id] && replies[id] != 1 {
 				add("C04", "request %s to the restarted service got %d responses by quiescence (want exactly one)", id, replies[id])
+				add("C03", "the restarted service does not give the same guarantees: request %s got %d responses by quiescence", id, replies[id])
 			}
 		}
 	}
